@@ -210,6 +210,7 @@ package graphql
 // position i must start at the cursor, be a JSON escape whose decoded code point equals the rune (or U+FFFD
 // for an invalid byte), and advances the cursor by the bytes consumed. At the end every byte is accounted for.
 //@ func writeQuotedString [C08]
+//@   requires w != nil
 //@   uses jsonstr
 //@   ghost emitted = 0
 //@   ghost quotes = 0
@@ -284,14 +285,17 @@ package graphql
 //@   ensures calls(WriteString) == 1 && calls(Write) == 0
 //@   nopanic
 //@ func MarshalIntID$1 [C08]
+//@   requires w != nil
 //@   callsite writeQuotedString: requires numval(arg1) == i
 //@   ensures calls(writeQuotedString) == 1 && calls(WriteString) == 0 && calls(Write) == 0
 //@   nopanic
 //@ func MarshalUintID$1 [C08]
+//@   requires w != nil
 //@   callsite writeQuotedString: requires numval(arg1) == i
 //@   ensures calls(writeQuotedString) == 1 && calls(WriteString) == 0 && calls(Write) == 0
 //@   nopanic
 //@ func MarshalString$1 [C08]
+//@   requires w != nil
 //@   callsite writeQuotedString: requires arg1 == s
 //@   ensures calls(writeQuotedString) == 1 && calls(WriteString) == 0 && calls(Write) == 0
 //@   nopanic
@@ -344,7 +348,7 @@ package graphql
 //@   ensures js == 9 && n == len(a)
 //@   ensures calls(Write) == 2 + max(len(a) - 1, 0)
 //@ func (*FieldSet).MarshalGQL [C08,C01]
-//@   requires m != nil && len(m.fields) == len(m.Values)
+//@   requires m != nil && len(m.fields) == len(m.Values) && writer != nil
 //@   ghost js = 0
 //@   ghost n = 0
 //@   at `writer.Write(openBrace)` requires js == 0
@@ -391,7 +395,9 @@ package graphql
 // (assumption: response interceptors return the response they were given or another non-nil one)
 //@ trusted (GraphExecutor).DispatchError(ctx, list) (resp)
 //@   ensures resp != nil
+// (assumption: the user's error presenter / recover function do not panic themselves)
 //@ trusted (GraphExecutor).PresentRecoveredError(ctx, err) (e)
+//@   nopanic
 
 // ---------------------------------------------------------------- C10: upload map paths
 //@ trusted strings.HasPrefix(s, prefix) (b)
